@@ -59,6 +59,8 @@ func (m *Machine) newDrawCells(n int, kind string) []*Term {
 func (m *Machine) ndStub(name string, args []Value) Value {
 	tt := m.tt
 	switch name {
+	case "init":
+		return nil
 	case "Bytes", "String":
 		n := int(int64(m.concretize(m.term(args[0]), "nd.Bytes length")))
 		if n < 0 || n > 1<<20 {
